@@ -9,13 +9,20 @@ require (
 )
 
 require (
+	github.com/OpenBazaar/jsonpb v0.0.0-20171123000858-37d32ddf4eef // indirect
 	github.com/aead/siphash v1.0.1 // indirect
 	github.com/btcsuite/go-socks v0.0.0-20170105172521-4720035b7bfd // indirect
 	github.com/dchest/siphash v1.2.3 // indirect
 	github.com/gcash/bchlog v0.0.0-20180913005452-b4f036f92fa6 // indirect
+	github.com/golang/protobuf v1.5.4 // indirect
 	github.com/kkdai/bstream v1.0.0 // indirect
 	github.com/zquestz/grab v0.0.0-20190224022517-abcee96e61b1 // indirect
+	golang.org/x/net v0.34.0 // indirect
+	golang.org/x/sys v0.29.0 // indirect
 	golang.org/x/text v0.21.0 // indirect
+	google.golang.org/genproto/googleapis/rpc v0.0.0-20250106144421-5f5ef82da422 // indirect
+	google.golang.org/grpc v1.69.4 // indirect
+	google.golang.org/protobuf v1.36.2 // indirect
 	lukechampine.com/uint128 v1.3.0 // indirect
 )
 
